@@ -759,7 +759,7 @@ Proof.
   assert (Facts : forall inp, (N.of_nat (length inp) < umax)%N -> simple inp (f_case fl) (f_multi fl) false (parens st') top
                    /\ (forall p, p <= length inp -> Rop inp (f_case fl) (f_multi fl) top p = DaO inp (f_case fl) (f_multi fl) a p)).
   { intros inp Hfi. destruct (parse_expr_grammar pat xpath (f_case fl) (f_single fl) inp (f_multi fl) (parens st') Hfi a Hok eq_refl)
-      as (top' & st'' & Eparse' & _ & _ & G & _ & _ & S0).
+      as (top' & st'' & Eparse' & _ & _ & G & _ & _ & S0 & _).
     rewrite Eparse in Eparse'. injection Eparse' as <- <-. split; [exact G|exact S0]. }
   pose proof (fragment_no_panic_no_out prog [] (proj1 (Facts [] eq_refl)) Hun 0 st0 (le_n 0) eq_refl) as NP0.
   destruct (matches prog [] 0 st0) as [s0|s0| |k0]; try contradiction; cbn [mres_bool rbind].
